@@ -24,8 +24,9 @@ type Outcome struct {
 	Steps      int               `json:"steps"`
 	Faults     map[string]int    `json:"faults,omitempty"` // faults that actually fired, by kind
 	Probes     map[string]int    `json:"probes,omitempty"`
-	States     []string          `json:"states,omitempty"` // abstract state hashes reached
-	Inter      string            `json:"inter,omitempty"`  // interleaving hash
+	States     []string          `json:"states,omitempty"`  // abstract state hashes reached
+	Digests    []string          `json:"digests,omitempty"` // per observed operation: digest of what it produced ("-" = not comparable); input to a comparison with the same operations in another process
+	Inter      string            `json:"inter,omitempty"`   // interleaving hash
 	Decisions  int               `json:"decisions,omitempty"`
 	Nontrivial bool              `json:"nontrivial"`
 	ScenHash   string            `json:"scen_hash"`
